@@ -35,7 +35,9 @@ type C06Scenario struct {
 	AtLowest  bool        `json:"node_at_lowest"`
 	EpochKind int         `json:"epoch_kind"` // 0: 2000-01-01, 1: repository default (2021), 2: 1 ms before the first reading
 	Node      int64       `json:"node"`
-	MinKind   int         `json:"min_kind"` // hard: 0 -> NewNode(node, 0); 1 -> NewNode(node, id of an earlier instant)
+	MinKind   int         `json:"min_kind"` // hard: 0 -> NewNode(node, 0); 1 -> NewNode(node, id of an earlier instant, step 77); 2 -> id of the first reading's millisecond, last step (4095); 3 -> id of one second after the first reading, last step
+	FarYears  int         `json:"far_years,omitempty"` // the clock starts this many years after 2023: timestamps beyond 41 bits (legal for the 9- and 8-bit node layouts)
+	RestartAt int         `json:"restart_at,omitempty"` // restart: 0 -> from the last issued id; 1 -> from the id with the same millisecond and node and the last step (4095), which the node may just as well have issued last
 	Clock     []clockSeg  `json:"clock"`
 	Phases    []phase     `json:"phases"`
 }
@@ -51,6 +53,16 @@ func drawC06(rt *rapid.T) interface{} {
 	max := int64(1)<<sc.NodeBits - 1
 	sc.Node = rapid.SampledFrom([]int64{0, 1, max, max - 1, max / 2, 5}).Draw(rt, "node")
 	sc.MinKind = rapid.IntRange(0, 1).Draw(rt, "min")
+	if rapid.IntRange(0, 3).Draw(rt, "edge") == 0 {
+		sc.MinKind = rapid.IntRange(2, 3).Draw(rt, "minedge")
+	}
+	sc.RestartAt = rapid.SampledFrom([]int{0, 0, 1}).Draw(rt, "restartat")
+	switch sc.NodeBits {
+	case 9:
+		sc.FarYears = rapid.SampledFrom([]int{0, 0, 0, 70}).Draw(rt, "far")
+	case 8:
+		sc.FarYears = rapid.SampledFrom([]int{0, 0, 0, 70, 190}).Draw(rt, "far")
+	}
 	sc.NanoStart = rapid.IntRange(0, 1).Draw(rt, "nanostart")
 	if rapid.IntRange(0, 11).Draw(rt, "badnode") == 0 {
 		sc.BadNode = rapid.IntRange(1, 3).Draw(rt, "badkind")
@@ -103,6 +115,14 @@ func drawC06(rt *rapid.T) interface{} {
 
 type gen interface{ Generate() int64 }
 
+// composeID builds the id the scenario's layout assigns to (milliseconds since the epoch, configured node, step)
+func composeID(sc *C06Scenario, tms, step int64) int64 {
+	if sc.AtLowest {
+		return tms<<(uint(sc.NodeBits)+12) | step<<uint(sc.NodeBits) | sc.Node
+	}
+	return tms<<(uint(sc.NodeBits)+12) | sc.Node<<12 | step
+}
+
 type nanoGen struct{ n *nano.UnixNanoID }
 
 func (g nanoGen) Generate() int64 { return g.n.GenID() }
@@ -121,9 +141,10 @@ func (g nanoNoLockGen) Generate() int64 {
 
 func runC06(t *testing.T, sci interface{}, keepLog bool) *hx.Outcome {
 	sc := sci.(*C06Scenario)
+	base := baseNs + int64(sc.FarYears)*365*86400_000_000_000
 	var (
 		reads    int
-		cur      = baseNs
+		cur      = base
 		seg, inS int
 		lastRead = map[*simrt.Task]int64{} // smallest reading made by the task's current call (0 = none yet): an implementation may read the clock more than once
 	)
@@ -134,7 +155,7 @@ func runC06(t *testing.T, sci interface{}, keepLog bool) *hx.Outcome {
 				inS = 0
 			}
 			cur += sc.Clock[seg].DeltaNs
-			if lim := baseNs + 40*365*86400_000_000_000; cur > lim {
+			if lim := base + 40*365*86400_000_000_000; cur > lim {
 				cur = lim // stay inside the timestamp width of every layout (the far future is a stall there)
 			}
 			inS++
@@ -183,7 +204,7 @@ func runC06(t *testing.T, sci interface{}, keepLog bool) *hx.Outcome {
 		nanoStart := int64(0)
 		if sc.NanoStart == 1 && (sc.Gen == "nano" || sc.Gen == "nanonl") {
 			// the generator starts from a value of a clock that ran ahead: every call takes the counting path
-			nanoStart = baseNs + 3600_000_000_000
+			nanoStart = base + 3600_000_000_000
 		}
 		build := func(min int64) {
 			switch sc.Gen {
@@ -218,13 +239,23 @@ func runC06(t *testing.T, sci interface{}, keepLog bool) *hx.Outcome {
 		min := int64(0)
 		if sc.Gen == "hard" && sc.MinKind == 1 {
 			// an id of an instant 5 s before the first reading, step 77: the node must continue above it
-			tms := baseNs/1e6 - 5000 - epochMs
+			tms := base/1e6 - 5000 - epochMs
 			if sc.AtLowest {
 				min = tms<<(uint(sc.NodeBits)+12) | 77<<uint(sc.NodeBits) | sc.Node
 			} else {
 				min = tms<<(uint(sc.NodeBits)+12) | sc.Node<<12 | 77
 			}
 			maxReturned = min
+		}
+		if sc.Gen == "hard" && sc.MinKind >= 2 && sc.BadNode == 0 {
+			// an id carrying the last step of its millisecond: the first reading's own millisecond, or one second ahead of it
+			tms := base/1e6 - epochMs
+			if sc.MinKind == 3 {
+				tms += 1000
+			}
+			min = composeID(sc, tms, 4095)
+			maxReturned = min
+			s.Count("start-from-last-step")
 		}
 		build(min)
 		if s.Failed() || g == nil {
@@ -233,8 +264,17 @@ func runC06(t *testing.T, sci interface{}, keepLog bool) *hx.Outcome {
 		prevSign := int64(0)
 		for pi, ph := range sc.Phases {
 			if ph.Restart && sc.Gen == "hard" && lastIssued != 0 {
-				build(lastIssued)
-				s.Logf("restart from %d", lastIssued)
+				from := lastIssued
+				if sc.RestartAt == 1 {
+					tf, _, _ := snowflake.IDFields(lastIssued)
+					if last := composeID(sc, tf, 4095); last >= lastIssued {
+						from = last
+						maxReturned = from
+						s.Count("restart-from-last-step")
+					}
+				}
+				build(from)
+				s.Logf("restart from %d", from)
 				s.Count("restart")
 			}
 			var ts []*simrt.Task
@@ -323,6 +363,9 @@ func runC06(t *testing.T, sci interface{}, keepLog bool) *hx.Outcome {
 			total += n
 		}
 	}
+	if sc.FarYears > 0 {
+		o.Counts["timestamp-beyond-41-bits"]++
+	}
 	if total > 4096 {
 		o.Counts["runs-crossing-step-wrap"]++
 	}
@@ -338,9 +381,9 @@ func TestC06(t *testing.T) {
 		Run:         runC06,
 		Real:        []string{"idgen/snowflake HardNode, MonoNode, IDFields (simgen-transformed)", "idgen/nano.UnixNanoID and UnixNanoNoLockID (simgen-transformed)"},
 		Stubs:       []string{"time (simtime: every Now/Since is the next reading of a drawn clock program: stalls, backward and forward jumps, ticks)", "sync (simsync.Mutex)", "goroutine scheduling (simrt)", "snowflake layout installed through snowflake.Setup (the verif-tagged VerifSetConfig provides the neutral start and the restore)"},
-		Rule: "scenario = generator (wall-clock node, monotonic node, unix-nano, lock-free unix-nano under the callers' own lock; unix-nano starting at 0 or one hour ahead of the clock) x layout (node bits 8/9/10, node-at-lowest, 3 epochs, node number at the edges; 1 in 12: a node number outside the layout, which the constructor must refuse) x clock program (1-6 segments of (delta, reads): 0, +-1ns..+-1h, +1y) x 1-3 phases of 1-4 concurrent callers (1-40 calls; 1 in 20 runs up to 4200 calls per caller to cross the 4096-step wrap) with optional restart from the last issued id x scheduler knobs/tape; " +
+		Rule: "scenario = generator (wall-clock node, monotonic node, unix-nano, lock-free unix-nano under the callers' own lock; unix-nano starting at 0 or one hour ahead of the clock) x layout (node bits 8/9/10, node-at-lowest, 3 epochs, node number at the edges; 1 in 12: a node number outside the layout, which the constructor must refuse) x clock program (1-6 segments of (delta, reads): 0, +-1ns..+-1h, +1y) x 1-3 phases of 1-4 concurrent callers (1-40 calls; 1 in 20 runs up to 4200 calls per caller to cross the 4096-step wrap) with optional restart from the last issued id or from the last step (4095) of its millisecond; start ids at step 77 of an earlier instant or at step 4095 of the current / a later millisecond; for 9/8 node bits 1 in 4 runs start 70 / 190 years later (timestamps of 42 / 43 bits) x scheduler knobs/tape; " +
 			"non-trivial = >=3 calls; distinct = distinct event-log hash",
-		Probes: []string{"gen-hard", "gen-mono", "gen-nano", "gen-nanonl", "node-out-of-range-refused", "restart", "clock-went-backwards", "clock-stalled", "runs-crossing-step-wrap"},
+		Probes: []string{"gen-hard", "gen-mono", "gen-nano", "gen-nanonl", "node-out-of-range-refused", "restart", "clock-went-backwards", "clock-stalled", "runs-crossing-step-wrap", "start-from-last-step", "restart-from-last-step", "timestamp-beyond-41-bits"},
 		Assumptions: []string{"the monotonic node is driven by non-decreasing clock programs only (real Go computes Since on the monotonic reading); its spin loop needs a clock that advances per read",
 			"forward jumps stay inside the timestamp width of the layout"},
 	})
